@@ -314,6 +314,10 @@ var keyPool = []string{"-", "-v", "--force", "k", "a b", "for", "1x", "k2", "ü"
 func genV(r *rnd, d int) *V {
 	switch k := r.n(11); {
 	case k <= 2:
+		if r.chance(1, 40) {
+			// one token larger than any plausible I/O chunk
+			return &V{K: "str", S: strings.Repeat("long string ", 420)}
+		}
 		return &V{K: "str", S: strPool[r.n(len(strPool))]}
 	case k == 3:
 		return &V{K: "num", N: int64(r.n(2000) - 1000)}
@@ -528,9 +532,115 @@ func genBodyOp(r *rnd, allowNested bool) OpM {
 
 // genHistory draws a history.  profile "nofault": edits only; "fault": edits
 // plus environment events (interleaved Bytes, save/reload, failing writers).
+// sessionNames are the attribute names of the large bodies that session
+// histories work on.
+var sessionNames = func() []string {
+	var ss []string
+	for i := 0; i < 26; i++ {
+		ss = append(ss, fmt.Sprintf("s%d", i))
+	}
+	return ss
+}()
+
+// genSession generates a long editing session on one large body: 12 to 26
+// items to begin with, 30 to 90 operations most of which add, remove, rename
+// and re-set items of that body, read back only now and then.  Size
+// thresholds, compaction and caches that are consulted after many operations
+// only come into play in such histories.
+func genSession(r *rnd, h *History, deep bool) {
+	n := 0
+	if r.chance(3, 4) {
+		h.Init.Kind = "parsed"
+		cnt := 12 + r.n(15)
+		for i := 0; i < cnt; i++ {
+			var it DItem
+			if r.chance(1, 6) {
+				it.Lead = []string{cmt(r, &n)}
+			}
+			if r.chance(1, 8) {
+				it.Blank = 1
+			}
+			if r.chance(3, 4) {
+				it.Name = sessionNames[i]
+				it.Eq = " = "
+				it.Expr = r.pick("1", `"s"`, "x.y", "[1, 2]", "f(x)", `x["k"].z`)
+				if r.chance(1, 6) {
+					it.LineCmt = cmt(r, &n)
+				}
+			} else {
+				it.Type = blockTypes[r.n(len(blockTypes))]
+				if r.chance(1, 2) {
+					it.Labels = []DLabel{{Text: fmt.Sprintf("l%d", i)}}
+				}
+				it.Body = &DBody{}
+				if r.chance(1, 2) {
+					it.Body.Items = []DItem{{Name: "a", Eq: " = ", Expr: "1"}}
+				}
+			}
+			h.Init.Body.Items = append(h.Init.Body.Items, it)
+		}
+	} else {
+		h.Init.Kind = "empty"
+	}
+	nops := 30 + r.n(60)
+	if deep {
+		nops = 60 + r.n(140)
+	}
+	h.Lazy = []int{0, 0, 2, 3, 5, 8}[r.n(6)]
+	for i := 0; i < nops; i++ {
+		if r.chance(1, 4) {
+			op := genBodyOp(r, true)
+			h.Ops = append(h.Ops, op)
+			continue
+		}
+		if r.chance(1, 25) {
+			h.Ops = append(h.Ops, OpM{Kind: r.pick("bytes", "save_reload")})
+			continue
+		}
+		op := OpM{Idx: r.n(1 << 16), Name: sessionNames[r.n(len(sessionNames))]}
+		switch k := r.n(20); {
+		case k <= 4:
+			op.Kind = "remove_attr"
+		case k <= 7:
+			op.Kind = "set_value"
+			op.Val = genV(r, 1)
+		case k <= 8:
+			op.Kind = "set_trav"
+			op.Root, op.Trav = genTrav(r)
+		case k <= 10:
+			op.Kind = "rename"
+			op.Name2 = sessionNames[r.n(len(sessionNames))]
+		case k <= 13:
+			op.Kind = "remove_block"
+			op.Handle = r.n(1 << 16)
+		case k <= 16:
+			op.Kind = "append_new_block"
+			op.Type = blockTypes[r.n(len(blockTypes))]
+			op.Labels = genLabels(r)
+		case k == 17:
+			op.Kind = "append_held_block"
+			op.Handle = r.n(1 << 16)
+		case k == 18:
+			op.Kind = "set_labels"
+			op.Labels = genLabels(r)
+		default:
+			op.Kind = "set_type"
+			op.Type = blockTypes[r.n(len(blockTypes))]
+		}
+		h.Ops = append(h.Ops, op)
+	}
+}
+
 func genHistory(seed uint64, profile string, deep bool) *History {
 	r := &rnd{s: mix(seed, 7)}
 	h := &History{Property: "C12", Seed: seed}
+	if r.chance(1, 10) {
+		genSession(r, h, deep)
+		return h
+	}
+	if r.chance(1, 6) {
+		h.Lazy = []int{2, 3, 5}[r.n(3)]
+	}
 	if r.chance(1, 5) {
 		h.Init.Kind = "empty"
 	} else {
